@@ -15,13 +15,13 @@ CLAIMED = {
             'save path of every archive scope; one common entry-point protocol (context, archive, serialize, Finalize) in all LoadObject/SaveObject '
             'overloads; XML node shapes emitted by the save side are accepted by the load side (childless element = empty value; recorded known '
             'findings); MsgPack writer-emits subset-of reader-accepts over the decision tables of both codecs; JSON rendering result consumed and '
-            'stream source encoding named; a value the stream reader delivers in chunks is assembled in order (inductive step of the chunk loop); the configured CSV separator reaches every function that decides with it.',
+            'stream source encoding named; a value the stream reader delivers in chunks is assembled in order (inductive step of the chunk loop); the configured CSV separator reaches every function that decides with it; no counter narrower than 32 bits is updated in a loop.',
             'cast-kind audit on the typed AST + call protocol rule + writer/reader decision-table inclusion (abstract interpretation)', '§5 C01'),
     'C02': ('other',
             'Structural necessary conditions of "no input can crash or exhaust the loader": no escape to std::terminate on load paths, no '
             'input-driven recursion, no unclamped header-declared pre-sizing, every read of the MsgPack input buffer covered by a bounds guard '
             'on every abstract path for all 256 first bytes (both readers and helpers), array end guards agree with IsEnd(); CSV unescape reads stay inside the cell in every loop iteration (inductive facts by Houdini); '
-            'the stream window analysis incl. disjoint memcpy regions; the encoded text stream reader keeps its window inside the buffer and makes progress at end of file (a truncated last code unit cannot spin a caller); no scalar local of the library is read before it is definitely written (definite-assignment analysis over CFG paths; a target of a failure-reporting loader counts as written only where the result was tested). Hangs and arithmetic UB in general are not decided.',
+            'the stream window analysis incl. disjoint memcpy regions; the encoded text stream reader keeps its window inside the buffer and makes progress at end of file (a truncated last code unit cannot spin a caller); no scalar local of the library is read before it is definitely written (definite-assignment analysis over CFG paths; a target of a failure-reporting loader counts as written only where the result was tested); the MsgPack key comparison is reflexive on a stored NaN (the key-visiting loop relies on it to advance); the encoded stream reader never answers Success on a failed stream with nothing buffered. Hangs and arithmetic UB in general are not decided.',
             'may-throw closure + call-graph SCCs + taint-to-sink flow + guard domination by abstract interpretation over the first-byte domain', '§5 C02'),
     'C03': ('other',
             'Structural necessary conditions of order-independent field loading: failure results of positioning/refill calls are consumed, '
